@@ -604,8 +604,8 @@ def _fourier_check(ctx, case, fast=False, asig=None, signal=None):
 import hashlib as _hashlib
 
 MID_HI = {"quick": 300000, "thorough": 2000000}
-MID_COUNT = {"quick": 16, "thorough": 36}
-MID_NEIGHBOURS = {"quick": 5, "thorough": 10}
+MID_COUNT = {"quick": 20, "thorough": 48}
+MID_NEIGHBOURS = {"quick": 5, "thorough": 14}
 MID_OUT_CAP = {("interp", "quick"): 3000000, ("interp", "thorough"): 12000000,
                ("fourier", "quick"): 1200000, ("fourier", "thorough"): 6000000}
 K_REFINE = (2, 10)
@@ -810,9 +810,9 @@ def _mid_interp_enum(tier, shard, nshards):
 
 
 @enum_clause(CLAUSES, "mid-range-interp", _mid_interp_enum,
-             rule="record lengths: ladder of 16 (quick, 2 000..300 000) / 36 (thorough, ..2 000 000) seed-placed sizes + one in the last "
+             rule="record lengths: ladder of 20 (quick, 2 000..300 000) / 48 (thorough, ..2 000 000) seed-placed sizes + one in the last "
                   "tenth of the range, sizes aimed at integer literals of the source, next-prime / power-of-two / 7-smooth neighbours of "
-                  "5 / 10 of them; every length x {refine k in 2..10 (one of the two cases: the largest k with output <= 3e6 / 1.2e7), decimate k in 2..50 with npts a multiple of k, decimate with the arbitrary length, unchanged step "
+                  "5 / 14 of them; every length x {refine k in 2..10 (one of the two cases: the largest k with output <= 3e6 / 1.2e7), decimate k in 2..50 with npts a multiple of k, decimate with the arbitrary length, unchanged step "
                   "(target == dt or dt < target < 2 dt)} x even in {T, F}; (dt, target) commensurate as float product / quotient or "
                   "generic; records noise x envelope / walk / sines + noise / ramp + noise with offsets 0, +-3, +-50 and container "
                   "variants; three call forms; non-trivial = step changed",
@@ -891,7 +891,7 @@ def mid_range_fourier(case, ctx):
 def _mid_history_enum(tier, shard, nshards):
     seed = gen.run_seed()
     hi = 250000 if tier == "quick" else 1500000
-    sizes = gen.ladder(3000, hi, 6 if tier == "quick" else 14, "c14-history-%s" % tier)
+    sizes = gen.ladder(3000, hi, 6 if tier == "quick" else 20, "c14-history-%s" % tier)
     i = 0
     for s in sizes:
         for which in ("interp", "fourier"):
@@ -926,7 +926,7 @@ def _mid_history_enum(tier, shard, nshards):
 
 
 @enum_clause(CLAUSES, "mid-range-history", _mid_history_enum,
-             rule="6 (quick, 3 000..250 000) / 14 (thorough, ..1 500 000) seed-placed lengths (a multiple of the decimation factor; odd "
+             rule="6 (quick, 3 000..250 000) / 20 (thorough, ..1 500 000) seed-placed lengths (a multiple of the decimation factor; odd "
                   "quotient and odd refinement factor for interpolation so that `even` changes the length, even quotient in 2 of 3 "
                   "Fourier histories) x {interpolation, Fourier}: ONE signal object is read (spectrum, velocity), resampled with (target A, "
                   "even e), (A, not e), (target B, e), then its values are replaced (reset_values, same length) and it is resampled with "
